@@ -24,8 +24,17 @@
         }
         if c.pushCallback == nil { return }
         c.pushCallback(data)                                -- pushed += payload
+    `oldClient.GraceClose(ctx)` polls every 500 ms until the old client has no request in flight
+    (one-way requests are counted and never answered) or `ctx` expires — `ClientIdleTimeout`, ten
+    minutes: the handler goroutine can stay inside `onPush` for a long time. The model makes that
+    wait explicit: `recv i` performs the switch and leaves the handler in `handlers`;
+    `graceDone j` is its return, whenever that happens. Handlers of further pushed packets run
+    concurrently.
     `Variant.guardFirst` is the same function with the `pushCallback == nil → return` guard moved in
     front of the `reconnectMsg` test (a client without push callback then ignores the notification).
+    `Variant.casGated` handles "only one notification at a time": a test-and-set on a flag that is
+    released when the handler returns; a notification processed while another handler is still
+    inside `GraceClose` is dropped.
   * `ServantProxy.SetPushCallback` / `doInvoke` copying it to the adapter.   `setCallback`
   * `AdapterProxy.Send(req)`: `c.tarsClient.Send(sbuf)` — the request goes to the generation that
     is current when `Send` reads `c.tarsClient`.                          `send id`
@@ -41,12 +50,17 @@ namespace Tars.AdapterPush
 inductive Variant
   | reconnectFirst
   | guardFirst
+  | casGated
 deriving DecidableEq, Repr
 
 /-- Which variant the source tree is: the extractor records whether, in `onPush`, the test for
-`reconnectMsg` comes before the first `… == nil → return` guard. -/
+`reconnectMsg` comes before the first `… == nil → return` guard, how many `return`s precede the
+switch `c.tarsClient = transport.NewTarsClient(…)` and how many test-and-set gates (`CompareAndSwap`,
+`TryLock`, `Swap`) the function contains. -/
 def treeVariant : Variant :=
-  if Tars.Consts.adapterOnPushReconnectFirst = 1 then .reconnectFirst else .guardFirst
+  if 0 < Tars.Consts.adapterOnPushGates then .casGated
+  else if Tars.Consts.adapterOnPushReconnectFirst = 1 ∧ Tars.Consts.adapterOnPushReturnsBeforeSwitch = 0
+  then .reconnectFirst else .guardFirst
 
 /-- a pushed packet (request id 0) as far as `onPush` looks at it -/
 inductive Push
@@ -74,6 +88,9 @@ structure State where
   stopped : List Nat := []
   /-- history: old clients handed to `GraceClose` -/
   graceClosing : List Nat := []
+  /-- `onPush` handlers that have switched the client and are still inside `GraceClose` (the old
+  generation each of them waits for) -/
+  handlers : List Nat := []
   /-- history: payloads delivered to the push callback -/
   pushed : List Nat := []
   /-- history: every `AdapterProxy.Send` -/
@@ -87,6 +104,7 @@ inductive Action
   | pNotify (g : Nat)
   | pPush (g : Nat) (payload : Nat)
   | recv (i : Nat)
+  | graceDone (j : Nat)
   | send (id : Nat)
 deriving DecidableEq, Repr
 
@@ -97,11 +115,16 @@ def onPush (v : Variant) (s : State) (g : Nat) (p : Push) : State :=
     | .data _ => s
   let body : State :=
     match p with
-    | .reconnect => { s with gen := s.gen + 1, graceClosing := s.graceClosing ++ [s.gen] }
+    | .reconnect => { s with gen := s.gen + 1, graceClosing := s.graceClosing ++ [s.gen],
+                             handlers := s.handlers ++ [s.gen] }
     | .data d => if s.hasCallback then { s with pushed := s.pushed ++ [d] } else s
   match v with
   | .reconnectFirst => body
   | .guardFirst => if s.hasCallback then body else s
+  | .casGated =>
+    match p with
+    | .reconnect => if s.handlers.isEmpty then body else s
+    | .data _ => body
 
 def step (v : Variant) (s : State) : Action → Option State
   | .setCallback => some { s with hasCallback := true }
@@ -115,6 +138,7 @@ def step (v : Variant) (s : State) : Action → Option State
     match s.inbox[i]? with
     | some (g, p) => some (onPush v { s with inbox := s.inbox.eraseIdx i } g p)
     | none => none
+  | .graceDone j => if j < s.handlers.length then some { s with handlers := s.handlers.eraseIdx j } else none
   | .send id => some { s with sends := s.sends ++ [⟨id, s.gen, s.noticed⟩] }
 
 def runFrom (v : Variant) (s : State) : List Action → Option State
